@@ -793,7 +793,14 @@ class LexerTokenStream(TokenStream):
             elif tok.type == "WHITESPACE":
                 new_tokbuf.append(tok)
             elif tok.type in ("COMMENT_SINGLELINE", "COMMENT_MULTILINE"):
-                comments.append(tok)
+                if self._is_doxygen_comment(tok):
+                    comments.append(tok)
+                else:
+                    # a plain comment is layout, but it ends the documentation
+                    # block and, when it runs to the end of the line, the line
+                    new_tokbuf.append(tok)
+                    if comments or tok.value.endswith("\n"):
+                        break
             else:
                 new_tokbuf.append(tok)
                 if comments:
@@ -806,6 +813,12 @@ class LexerTokenStream(TokenStream):
             return self._extract_comments(comments)
 
         return None
+
+    @staticmethod
+    def _is_doxygen_comment(tok: LexToken) -> bool:
+        if tok.type == "COMMENT_SINGLELINE":
+            return tok.value.startswith(("///", "//!"))
+        return tok.value.startswith(("/**", "/*!"))
 
     def _extract_comments(self, comments: typing.List[LexToken]):
         # Now we have comments, need to extract the text from them
